@@ -163,7 +163,7 @@ class Engine:
         self._enums_loaded = True
         shared = getattr(self.ix, '_enum_tables', None)
         if shared is not None: self._enum_cache, self._enum_discr, self._enum_alts = shared; return
-        self._enum_discr = {}; self._enum_alts = {}
+        self._enum_discr = {}; self._enum_alts = {}; self._enum_file = {}
         self.ix._enum_tables = (self._enum_cache, self._enum_discr, self._enum_alts)
         for d in self.enum_src_dirs:
             base = os.path.join(self.ix.repo, d)
@@ -202,10 +202,10 @@ class Engine:
                         nm = m.group(1)
                         if nm in self._enum_cache and self._enum_cache[nm] != vs and nm not in STD_ENUMS:
                             # same enum name defined twice (e.g. function-local `enum State`): keep alternatives, merge variant names
-                            self._enum_alts.setdefault(nm, [(list(self._enum_cache[nm]), dict(self._enum_discr.get(nm, {})))]).append((vs, discr))
+                            self._enum_alts.setdefault(nm, [(list(self._enum_cache[nm]), dict(self._enum_discr.get(nm, {})), self._enum_file.get(nm))]).append((vs, discr, os.path.relpath(os.path.join(root, fn), self.ix.repo)))
                             self._enum_cache[nm] = self._enum_cache[nm] + [v for v in vs if v not in self._enum_cache[nm]]
                         else:
-                            self._enum_cache.setdefault(nm, vs); self._enum_discr.setdefault(nm, discr)
+                            self._enum_cache.setdefault(nm, vs); self._enum_discr.setdefault(nm, discr); self._enum_file.setdefault(nm, os.path.relpath(os.path.join(root, fn), self.ix.repo))
 
     def enum_variants(self, ty):
         if not getattr(self, '_enums_loaded', False): self._load_enums()
@@ -223,8 +223,11 @@ class Engine:
         vs = self.enum_variants(e.ty)
         alts = getattr(self, '_enum_alts', {}).get(e.ty)
         if alts:
-            cands = {(d.get(e.v) if e.v in d else None) for v_, d in alts if e.v in v_}
+            cands = {(d.get(e.v) if e.v in d else None) for v_, d, f_ in alts if e.v in v_}
             if len(cands) == 1 and None not in cands: return cands.pop()
+            cur = self.call_stack[-1].file if self.call_stack else None
+            here = [d for v_, d, f_ in alts if e.v in v_ and f_ == cur]
+            if len(here) == 1 and e.v in here[0]: return here[0][e.v]            # same-named enums: the one defined in the file of the running function
             # variant name occurs in several same-named enums at different positions: disambiguate by the sibling variants is impossible here
             raise EngineError(f'ambiguous discriminant of {e.ty}::{e.v}')
         d = self._enum_discr.get(e.ty)
